@@ -330,6 +330,17 @@ def c02(res, tier, rng, wd):
         scs.append(e1.scenario(len(scs), "rtu", [1, 2], steps, seed=rng.randrange(100), tag=f"c02-rtu-reopen-after-{kind}"))
     split = e1.gen_split_with_command(rng, 60 if thorough else 16, len(scs), auth_modes=AUTH_MODES[:3], tagp="c02")
     scs += split
+    # write-multiple requests that carry more data than their quantity needs, with a byte-count field that agrees with the
+    # data: wrong length for the quantity -- exception 03, no handler call -- on both framings (on a serial line the field
+    # delimits the frame, so the frame itself is well delimited)
+    lies = [(p, n) for (p, n) in e1.wmc_lattice(rng) + e1.wmr_lattice(rng) if "bytecount and data" in n]
+    for framing in ("tcp", "rtu"):
+        for i in range(0, len(lies), 6):
+            steps = []
+            for j, (p, n) in enumerate(lies[i:i + 6]):
+                steps.append(e1.rx(e1.frame(framing, 500 + j, 1, p)))
+                steps.append(e1.rx(e1.frame(framing, 600 + j, 1, e1.req_read(3 if p[0] == 16 else 1, p[2], 4))))
+            scs.append(e1.scenario(len(scs), framing, [1, 2], steps, seed=rng.randrange(100), tag="c02-bytecount-agrees-with-surplus-data"))
     # a unit id registered twice: ServerHandlerMap::add replaces, so only the handler registered last is "their" handler
     for k in range(12 if thorough else 4):
         framing = rng.choice(["tcp", "rtu"])
